@@ -16,7 +16,7 @@ SPEC = {
     "C04": dict(fn=D.c04_one, file="props/C04.v", gens=["engine"], backends=("pandas", "numpy", "list")),
     "C05": dict(fn=D.c05_one, file="props/C05.v", gens=["engine"], backends=("pandas", "numpy", "list")),
     "C06": dict(fn=D.c06_one, file="props/C06.v", gens=["engine"], backends=("pandas",)),
-    "C07": dict(fn=None, file="props/C07.v", gens=["shipped", "pandas"], backends=("pandas",)),
+    "C07": dict(fn=None, file="props/C07.v", gens=["shipped", "pandas", "python"], backends=("pandas",)),
     "C09": dict(fn=D.c09_one, file="props/C09.v", gens=["shipped", "pandas"], backends=("pandas", "numpy", "list")),
 }
 
@@ -127,7 +127,11 @@ def replay_entry(prop, e):
     ts = streams.shipped_typesets()[name]
     with warnings.catch_warnings():
         warnings.simplefilter("ignore")
-        if prop == "C07":
+        if prop == "C09" and r.get("backend") == "pylist":
+            fs = D.c09_one(streams.shipped_typesets()["StandardSet"], "StandardSet", streams.build(r["recipe"]), "pylist")
+        elif prop == "C07" and r.get("backend") in ("numpy-array", "pylist"):
+            fs = D.c07_seq_values(streams.shipped_typesets()["StandardSet"], "StandardSet", streams.build(r["recipe"]), r["backend"])
+        elif prop == "C07":
             fs = D.c07_one(ts, name, r.get("item", {"family": r.get("family"), "pool": r.get("pool"), "dtype": r.get("enc_dtype"), "nulls": "?", "null": None}), rebuild(r))
         else:
             fs = SPEC[prop]["fn"](ts, name, rebuild(r), r.get("backend", "pandas"))
@@ -160,6 +164,38 @@ def run(prop, args, extra_trusted=(), rule_extra=""):
     tss = typesets_for(prop, deep)
     ctx = {"typesets": tss, "std": streams.shipped_typesets()["StandardSet"]}
     new, seen_known, kn = oracle.run_oracle(run, prop, items, make_oracle(prop), ctx)
+    if prop == "C09":
+        # pure Python lists whose elements pandas would re-box (numpy scalars, huge ints, extreme floats): deterministic corners
+        n_seq = 0
+        for rc in D.C09_LIST_CORNERS:
+            with warnings.catch_warnings():
+                warnings.simplefilter("ignore")
+                try:
+                    x = streams.build(rc)
+                except Exception:  # noqa
+                    continue
+                n_seq += 1
+                for f in D.c09_one(ctx["std"], "StandardSet", x, "pylist"):
+                    f["recipe"] = rc
+                    if oracle.classify(prop, f, kn) is None:
+                        new.append(f)
+        run.cov["pure_list_corners"] = n_seq
+    if prop == "C07":
+        # numeric numpy arrays of every float width and Python lists (deterministic corners): cast values = original values
+        n_seq = 0
+        for rc in D.C07_SEQ_CORNERS:
+            with warnings.catch_warnings():
+                warnings.simplefilter("ignore")
+                try:
+                    x = streams.build(rc)
+                except Exception:  # noqa
+                    continue
+                n_seq += 1
+                for f in D.c07_seq_values(ctx["std"], "StandardSet", x, "numpy-array" if isinstance(x, np.ndarray) else "pylist"):
+                    f["recipe"] = rc
+                    if oracle.classify(prop, f, kn) is None:
+                        new.append(f)
+        run.cov["numpy_and_list_value_corners"] = n_seq
     nviol = oracle.report(run, prop, new, seen_known, kn, replay_known=lambda e: bool(replay_entry(prop, e)))
     if not nviol and run.failed_obligations():
         rep = {"broken_obligations": run.failed_obligations(),
